@@ -63,6 +63,24 @@ fn check(case: &SubCase, run: &mut Run) -> Result<(), (Vec<u8>, String)> {
             if dt.panic.is_none() && dt.errors.is_empty() && dt.graph.is_some() {
                 return Err((vec![], format!("definition with references rejected ({errs:?}) but the same definition with the references inlined is accepted")));
             }
+            // the twin keeps the subpattern definitions. A third rendering has none at all: when every subpattern source is
+            // a regex on its own in its own Unicode mode (and, in a str-mode definition, matches only valid UTF-8), nothing
+            // about the definitions themselves can justify the rejection
+            let own_ok = def.subpatterns.iter().all(|sp| {
+                let (text, unicode) = sp.inlined.as_ref().unwrap_or(&sp.lit).as_regex();
+                match model::reference::parse_hir(&text, unicode, false) {
+                    Ok(h) => !def.utf8 || h.properties().is_utf8(),
+                    Err(_) => false,
+                }
+            });
+            if own_ok {
+                let mut bare = twin.clone();
+                bare.subpatterns.clear();
+                let db = derive_def(&bare);
+                if db.panic.is_none() && db.errors.is_empty() && db.graph.is_some() {
+                    return Err((vec![], format!("definition with references rejected ({errs:?}) although every subpattern source is a valid regex in its own mode and the patterns with the references replaced by groups are accepted")));
+                }
+            }
             return Ok(());
         }
         Err(PrepError::NoReference(_)) => {
